@@ -191,6 +191,10 @@ void setup(Handler& ah, Dest& d, int cfg, int part /* 0 = all, 1/2 = halves for 
       if (in(1)) { ah.addArgument("s,name", DEST_VAR(d.s), "name")->addConstraint(requiresArg("n,number")); ah.addArgument("n,number", DEST_VAR(d.n), "number");
                    ah.addArgument("q,quiet", DEST_VAR(d.q), "quiet")->addConstraint(excludes("v,verbose")); ah.addArgument("v,verbose", DEST_VAR(d.f), "verbose"); }
       if (in(2)) { ah.addArgument("g,gflag", DEST_VAR(d.g), "flag"); }
+   } else if (cfg == 22) {
+      if (in(1)) { ah.addArgument("a", DEST_VAR(d.a), "a")->addConstraint(requiresArg("x")); ah.addArgument("b", DEST_VAR(d.b), "b")->addConstraint(requiresArg("extra"));
+                   ah.addArgument("x,extra", DEST_VAR(d.x), "x"); }
+      if (in(2)) { ah.addArgument("g,gflag", DEST_VAR(d.g), "g"); }
    } else if (cfg == 9) {
       // the same argument required by one argument and excluded by another
       if (in(1)) { ah.addArgument("a", DEST_VAR(d.a), "a")->addConstraint(requiresArg("c")); ah.addArgument("b", DEST_VAR(d.b), "b")->addConstraint(excludes("c"));
@@ -287,6 +291,7 @@ void setup(Handler& ah, Dest& d, int cfg, int part /* 0 = all, 1/2 = halves for 
       {
       celma::prog_args::detail::TypedArgBase* cs[3] = { ah.addArgument("t,set", DEST_VAR(d.st), "set"), ah.addArgument("a,arr", DEST_VAR(d.arr), "array"), ah.addArgument("y,stdarr", DEST_VAR(d.sa), "std::array") };
       if (pa_opt & 1024) for (auto* a : cs) a->addCheck(range(10, 100));        // every element is checked
+      if (pa_opt & 65536) cs[1]->setIsMandatory();                               // the C array must be given (any number of values up to its size)
       }
       {
       auto* b = ah.addArgument("b,bits", DEST_VAR(d.bs), "bitset");
@@ -864,6 +869,12 @@ HX void hx_pa_group_subkey(uint64_t mode, uint64_t) {
       auto h2 = Groups::instance().getArgHandler("second", 0);
       h1->addArgument("i", sub_in, "input arguments"); h1->addArgument("o,output", sub_out, "output arguments"); h1->addArgument("q,quiet", DEST_VAR(q), "quiet");
       if (mode & 8) h2->addArgument("e,extra", sub_extra, "extra arguments");
+      if ((mode & 7) == 5) {      // a mandatory sub-group argument of a member handler that is not used must be reported by the group
+         h2->addArgument("m,mand", sub_extra, "mandatory sub-group")->setIsMandatory();
+         char b0[] = "prog", b1[] = "-q"; char* bargv[] = {b0, b1, nullptr};
+         Groups::instance().evalArguments(2, bargv);
+         return;
+      }
       switch (mode & 7) {
       case 0: h2->addArgument("i", DEST_VAR(z), "z"); break;
       case 1: h2->addArgument("o,output", DEST_VAR(z), "z"); break;
@@ -875,6 +886,7 @@ HX void hx_pa_group_subkey(uint64_t mode, uint64_t) {
       Groups::instance().evalArguments(1, argv);
    });
    vs_assert(rc != 2, "only std::exception");
+   if ((mode & 7) == 5) { vs_assert(rc == 1, "a missing mandatory sub-group argument of a member handler is reported when evaluating through the group"); return; }
    vs_assert((rc == 1) == ((mode & 7) <= 3), "a key (normal or sub-group) defined in one member handler is refused in another member handler, other keys are accepted");
 }
 
